@@ -254,6 +254,21 @@ example : shortBasis 1 ⟨2, 1, 0, 0⟩ = none := by decide
 theorem closest_vector_in_lattice {q : Int} {rb : M2} {t : V2} {o : CvpOut} (h : closestVector q rb t = some o) :
     t.sub o.tmc = rb.eval o.coords := closestVector_lattice h
 
+/-- … and the residual is nearest-plane reduced (q ≥ 0): with `b` = first column, `a` = second column and
+    `a* = N(b)·a - <a,b>·b`: `|2<r,b>| ≤ N(b)` and `|2·N(b)·<a*,r>| ≤ N(a*)` — the "closest vector" is Babai's
+    nearest-plane vector for the basis `(b, a)` (it is the closest lattice vector up to the usual nearest-plane factor;
+    exact closeness is not claimed by the code either). -/
+theorem closest_vector_reduced {q : Int} (hq : 0 ≤ q) {rb : M2} {t : V2} {o : CvpOut} (h : closestVector q rb t = some o) :
+    (2 * bil q o.tmc.x o.tmc.y rb.a00 rb.a10 ≤ norm q rb.a00 rb.a10 ∧
+      -(norm q rb.a00 rb.a10) ≤ 2 * bil q o.tmc.x o.tmc.y rb.a00 rb.a10) ∧
+    (let nb := norm q rb.a00 rb.a10
+     let bl := bil q rb.a01 rb.a11 rb.a00 rb.a10
+     let as0 := rb.a01 * nb - rb.a00 * bl
+     let as1 := rb.a11 * nb - rb.a10 * bl
+     2 * (bil q as0 as1 o.tmc.x o.tmc.y * nb) ≤ norm q as0 as1 ∧
+       -(norm q as0 as1) ≤ 2 * (bil q as0 as1 o.tmc.x o.tmc.y * nb)) :=
+  closestVector_reduced hq h
+
 /-- `quat_dim2_lattice_qf_enumerate_short_vec`, soundness of found = 1 (for completeness see below). -/
 theorem enumerate_short_vec_sound {cond : V2 → Option Elem} {q : Int} {tmc : V2} {b : M2} {nb : Int} {mt : Nat}
     {e : Elem} (h : enumerateShortVec cond q tmc b nb mt = some (some e)) :
